@@ -542,4 +542,36 @@ def parseArgs : Opts → List FlagArg → Outcome Opts
     | ⟨_, .error e⟩ => .error e
     | ⟨_, .panic⟩ => .panic
 
+/-! ### what `attack` does with the parsed values (attack.go) -/
+
+def eGuard : Nat := 26
+
+/-- what `attack(opts)` hands on: `hdr = opts.headers.Header` to the targeter
+(`NewJSONTargeter(src, body, hdr)` / `NewHTTPTargeter(src, body, hdr)`), `opts.rate` as the pacer of
+`atk.Attack(tr, opts.rate, …)`, and the attacker options `MaxWorkers(opts.maxWorkers)`,
+`MaxBody(opts.maxBody)`, `DNSCaching(opts.dnsTTL)`, `ConnectTo(opts.connectTo)` -/
+structure Plumbed where
+  targeterHeader : Header
+  pacer          : Rate
+  maxWorkers     : Nat
+  maxBody        : Int
+  dnsTTL         : Int
+  connectTo      : AddrMap
+  deriving Repr, DecidableEq
+
+/-- `attack`: the guard, then every parsed value is passed on as it is — no copy, no
+canonicalisation of header keys, no rounding of the TTL. (Files, TLS, the other options and the
+run itself are left out.) -/
+def attackPlumbing (o : Opts) : Outcome Plumbed :=
+  if attackGuard o.maxWorkers o.rate then .error eGuard
+  else .ok { targeterHeader := o.headers, pacer := o.rate, maxWorkers := o.maxWorkers,
+             maxBody := o.maxBody, dnsTTL := o.dnsTTL, connectTo := o.connectTo }
+
+/-- a whole `vegeta attack` command line of these flags: parse, then `attack` -/
+def attackCommand (args : List FlagArg) : Outcome Plumbed :=
+  match parseArgs defaultOpts args with
+  | .ok o => attackPlumbing o
+  | .error e => .error e
+  | .panic => .panic
+
 end Vegeta.Model.Flags
